@@ -123,6 +123,10 @@ theorem visitE_inv (cfg : Config) : ∀ (e : Expr) (n : Nat) (e' : Expr) (D : Li
       obtain ⟨hd1, hd2⟩ := app_nil2 hd
       rw [he.2.2.2 hd2, iv.same hd1]
   | .binop i op l r, n, e', D, n', h => by
+      simp only [visitE] at h
+      split at h
+      · simp at h
+      next hmm =>
       vopen h
       obtain ⟨v1, d1, n1, hv, s1, d2, n2, hs, h⟩ := h
       rcases hE1 : ensure cfg "BinOp" "left" v1 n2 with ⟨v2, h1, n3⟩
@@ -134,7 +138,7 @@ theorem visitE_inv (cfg : Config) : ∀ (e : Expr) (n : Nat) (e' : Expr) (D : Li
       have he1 := ensure_spec' iv.quiet hE1
       have he2 := ensure_spec' is.quiet hE2
       refine ⟨((iv.hoists.append is.hoists).append he1.1).append he2.1,
-        by simp [Malt.Anf.quiet, he1.2.1, he1.2.2.1, he2.2.1, he2.2.2.1], fun hd => ?_, rfl⟩
+        by simp [Malt.Anf.quiet, he1.2.1, he1.2.2.1, he2.2.1, he2.2.2.1, hmm], fun hd => ?_, rfl⟩
       obtain ⟨hd, hd4⟩ := app_nil2 hd
       obtain ⟨hd, hd3⟩ := app_nil2 hd
       obtain ⟨hd1, hd2⟩ := app_nil2 hd
